@@ -143,6 +143,9 @@ static void b_call_function(unsigned n)
 	for (unsigned i = 0; i < n; i++) { args.values[i] = cfgv_alloc(sizeof(cfg_value_t)); texts[i] = cfgv_alloc(2); texts[i][0] = (char)('a' + i); texts[i][1] = 0; args.values[i]->string = texts[i]; }
 	g_fn_calls = 0; g_fn_ret = nondet_int();
 	rc = call_function(&cfg, &o, &args);
+#ifdef CFGV_NO_ALLOC_FAILURE
+	CHECK("C14", g_fn_calls == 1, "the function option's callback is called (no allocation failure in this unit)");
+#endif
 	if (g_fn_calls == 0) {
 		CHECK("C18", rc == CFG_FAIL, "no memory for the argument vector: the call fails without invoking the callback");
 		cfg_free_value(&args);
